@@ -104,6 +104,13 @@ pub struct Nudge {
 
 /// NudgeToCalendarUnit for a plain (zone-less) receiver.
 pub fn nudge_to_calendar_unit(sign: i64, dur: &Internal, dest_epoch_ns: i128, origin: Dt, inc: i64, unit: usize, mode: Mode) -> Result<Nudge, DErr> {
+    nudge_to_calendar_unit_with(sign, dur, dest_epoch_ns, origin, inc, unit, mode, &|dt: Dt| Ok(dt.epoch_ns()))
+}
+
+/// The same with the conversion wall-clock -> epoch ns supplied (UTC for plain receivers,
+/// GetEpochNanosecondsFor(zone, ., compatible) for zoned ones).
+#[allow(clippy::too_many_arguments)]
+pub fn nudge_to_calendar_unit_with(sign: i64, dur: &Internal, dest_epoch_ns: i128, origin: Dt, inc: i64, unit: usize, mode: Mode, epoch_of: &dyn Fn(Dt) -> Result<i128, DErr>) -> Result<Nudge, DErr> {
     let d = dur.date;
     let trunc_to = |v: i64| -> i64 { (v / inc) * inc }; // RoundNumberToIncrement(v, inc, trunc)
     let (r1, r2, start_dur, end_dur) = match unit {
@@ -138,8 +145,8 @@ pub fn nudge_to_calendar_unit(sign: i64, dur: &Internal, dest_epoch_ns: i128, or
     }
     let start = cal_add(origin.date, start_dur)?;
     let end = cal_add(origin.date, end_dur)?;
-    let start_ns = Dt::new(start, origin.tod).epoch_ns();
-    let end_ns = Dt::new(end, origin.tod).epoch_ns();
+    let start_ns = epoch_of(Dt::new(start, origin.tod))?;
+    let end_ns = epoch_of(Dt::new(end, origin.tod))?;
     if start_ns == end_ns {
         return Err(DErr::SpecAssert);
     }
@@ -201,7 +208,11 @@ pub fn nudge_to_day_or_time(dur: &Internal, dest_epoch_ns: i128, largest: usize,
 }
 
 /// BubbleRelativeDuration for a plain receiver.
-pub fn bubble(sign: i64, mut dur: Internal, nudged_epoch_ns: i128, origin: Dt, largest: usize, smallest: usize) -> Result<Internal, DErr> {
+pub fn bubble(sign: i64, dur: Internal, nudged_epoch_ns: i128, origin: Dt, largest: usize, smallest: usize) -> Result<Internal, DErr> {
+    bubble_with(sign, dur, nudged_epoch_ns, origin, largest, smallest, &|dt: Dt| Ok(dt.epoch_ns()))
+}
+
+pub fn bubble_with(sign: i64, mut dur: Internal, nudged_epoch_ns: i128, origin: Dt, largest: usize, smallest: usize, epoch_of: &dyn Fn(Dt) -> Result<i128, DErr>) -> Result<Internal, DErr> {
     if smallest == largest {
         return Ok(dur);
     }
@@ -219,7 +230,7 @@ pub fn bubble(sign: i64, mut dur: Internal, nudged_epoch_ns: i128, origin: Dt, l
                 return Err(DErr::Range);
             }
             let end = cal_add(origin.date, end_dur)?;
-            let end_ns = Dt::new(end, origin.tod).epoch_ns();
+            let end_ns = epoch_of(Dt::new(end, origin.tod))?;
             let beyond = (nudged_epoch_ns - end_ns).signum() as i64;
             if beyond != -sign {
                 dur = Internal { date: end_dur, time: 0 };
